@@ -94,7 +94,7 @@ def polarity(ctx, res):
     repo = get_pyrepo(ctx)
     for rel, qual, sides, floor in MAINTAINERS:
         mod = repo.module(rel)
-        fn = repo.func(rel, qual)
+        fn = repo.inlined(rel, qual)
         ev = fn.args.args[0].arg
         calls = _aorn_calls(fn)
         seen_sides = set()
@@ -168,7 +168,7 @@ def polarity(ctx, res):
     # trait_added: add-only by design (remove_trait fires no event)
     rel = OBS + "_trait_added_observer.py"
     mod = repo.module(rel)
-    fn = repo.func(rel, "TraitAddedObserver.observer_change_handler")
+    fn = repo.inlined(rel, "TraitAddedObserver.observer_change_handler")
     calls = _aorn_calls(fn)
     if len(calls) != 1:
         raise AnalysisError("TraitAddedObserver.observer_change_handler: "
@@ -240,7 +240,7 @@ def projection(ctx, res):
                        f"{cname}.{m.name} does not test isinstance(..., "
                        f"{tname})")
         # maintainer
-        fn = repo.func(rel, "_observer_change_handler")
+        fn = repo.inlined(rel, "_observer_change_handler")
         ev = fn.args.args[0].arg
         iters = [norm(n.iter) for n in ast.walk(fn) if isinstance(n, ast.For)]
         res.instance(f"{rel.split('/')[-1]}:_observer_change_handler",
@@ -253,7 +253,7 @@ def projection(ctx, res):
                        f"`{objp + suffix}`, so it must walk `{want}`")
     # trait observers: UNOBSERVABLE filter at hook-up and in the maintainer
     mod = repo.module(HTH)
-    fn = repo.func(HTH, "iter_objects")
+    fn = repo.inlined(HTH, "iter_objects")
     res.instance("iter_objects", mod.loc(fn))
     res.oblige("UNOBSERVABLE_VALUES" in names_in(fn)
                and any("__dict__" in norm(n) for n in ast.walk(fn)
@@ -261,7 +261,7 @@ def projection(ctx, res):
                "iter_objects:filter", mod.loc(fn),
                "iter_objects must read the instance __dict__ (no default "
                "materialisation) and skip UNOBSERVABLE_VALUES")
-    och = repo.func(HTH, "observer_change_handler")
+    och = repo.inlined(HTH, "observer_change_handler")
     ev = och.args.args[0].arg
     for side in ("old", "new"):
         guards = [n for n in ast.walk(och) if isinstance(n, ast.If)
@@ -313,7 +313,7 @@ def instance_trait(ctx, res):
     # legacy on_trait_change: add with instance trait, remove with lookup
     rel = "traits/has_traits.py"
     mod = repo.module(rel)
-    fn = repo.func(rel, "HasTraits._on_trait_change")
+    fn = repo.inlined(rel, "HasTraits._on_trait_change")
     calls = [c for c in ast.walk(fn) if isinstance(c, ast.Call)
              and is_self_call(c, "_trait")]
     modes = sorted(norm(c.args[1]) for c in calls if len(c.args) == 2)
@@ -351,7 +351,7 @@ def notify_gate(ctx, res):
     repo = get_pyrepo(ctx)
     rel = OBS + "_observe.py"
     mod = repo.module(rel)
-    fn = repo.func(rel, "_AddOrRemoveNotifier._add_or_remove_notifiers")
+    fn = repo.inlined(rel, "_AddOrRemoveNotifier._add_or_remove_notifiers")
 
     def is_effect(e):
         return isinstance(e.func, ast.Attribute) and e.func.attr in (
@@ -374,7 +374,7 @@ def notify_gate(ctx, res):
     res.oblige("self.graph.node.get_notifier" in srcs,
                "_add_or_remove_notifiers:source", mod.loc(fn),
                "user notifier is not obtained from node.get_notifier")
-    fm = repo.func(rel, "_AddOrRemoveNotifier._add_or_remove_maintainers")
+    fm = repo.inlined(rel, "_AddOrRemoveNotifier._add_or_remove_maintainers")
     fl2 = CallSiteFlow(mod, fm, "_add_or_remove_maintainers", is_effect)
     fl2.run(frozenset())
     res.instance("_AddOrRemoveNotifier._add_or_remove_maintainers",
@@ -562,9 +562,11 @@ def undo_complete(ctx, res):
     rel = OBS + "_observe.py"
     mod = repo.module(rel)
     cls = repo.cls(rel, "_AddOrRemoveNotifier")
-    call = cls.methods.get("__call__")
-    if call is None:
+    if cls.methods.get("__call__") is None:
         raise AnalysisError("_AddOrRemoveNotifier.__call__ missing")
+    # private helpers extracted from these methods are analysed in place
+    from ..pyfacts import _inlinable
+    call = repo.inlined(rel, "_AddOrRemoveNotifier.__call__")
     # steps executed inside the try
     steps = sorted({n.attr for n in ast.walk(call)
                     if isinstance(n, ast.Attribute)
@@ -573,9 +575,10 @@ def undo_complete(ctx, res):
     if len(steps) < 4:
         raise AnalysisError(f"steps of _AddOrRemoveNotifier: {steps}")
     helper_methods = [m for m in cls.methods
-                      if m not in ("__init__", "__call__")]
+                      if m not in ("__init__", "__call__")
+                      and (m in steps or not _inlinable(cls.methods[m]))]
     for m in helper_methods:
-        fn = cls.methods[m]
+        fn = repo.inlined(rel, f"_AddOrRemoveNotifier.{m}")
         fl = UndoFlow(mod, fn, f"_AddOrRemoveNotifier.{m}")
         fl.run((None, None))
         res.instance(f"_AddOrRemoveNotifier.{m}", mod.loc(fn),
@@ -624,7 +627,7 @@ def undo_complete(ctx, res):
     # the multi-graph loop in observe.apply_observers
     rel2 = OBS + "observe.py"
     mod2 = repo.module(rel2)
-    fn = repo.func(rel2, "apply_observers")
+    fn = repo.inlined(rel2, "apply_observers")
     loops = [l for l in ast.walk(fn) if isinstance(l, ast.For)
              and _aorn_calls(l)]
     res.instance("apply_observers", mod2.loc(fn), loops=len(loops))
@@ -719,6 +722,17 @@ def symmetry(ctx, res):
                      normal_paths=len(exits), raising_paths=len(raises))
         key = f"TraitEventNotifier.{meth}"
         uses_equals = any(is_self_call(n, "equals") for n in ast.walk(fn))
+        if not uses_equals:
+            # ... or through a private search helper of the class
+            for n in ast.walk(fn):
+                if isinstance(n, ast.Call) and isinstance(n.func,
+                                                          ast.Attribute) \
+                        and is_self_attr(n.func) \
+                        and n.func.attr in cls.methods \
+                        and n.func.attr.startswith("_"):
+                    uses_equals = uses_equals or any(
+                        is_self_call(x, "equals")
+                        for x in ast.walk(cls.methods[n.func.attr]))
         res.oblige(uses_equals, key + ":equals", mod.loc(fn),
                    f"{meth} does not search with self.equals")
         for evs, facts in exits:
@@ -729,9 +743,10 @@ def symmetry(ctx, res):
                            f"a normal path of add_to performs {len(incs)} "
                            f"reference-count increments ({evs_l}); n adds "
                            f"must be matched by n removes")
-                matched = ("T", "self.equals(other)") in facts
+                matched = any(e.startswith("INC:") and e != "INC:self"
+                              for e in evs_l)
                 if matched:
-                    res.oblige("INC:other" in evs_l and not any(
+                    res.oblige(not any(
                         e.startswith("APPEND") for e in evs_l),
                         key + ":match", mod.loc(fn),
                         f"when an equal notifier exists add_to must bump its "
@@ -743,16 +758,18 @@ def symmetry(ctx, res):
                                f"append self once and count it ({evs_l})")
             else:
                 decs = [e for e in evs_l if e.startswith("DEC")]
-                res.oblige(decs == ["DEC:other"]
-                           and ("T", "self.equals(other)") in facts,
+                who = decs[0][4:] if decs else "?"
+                res.oblige(len(decs) == 1 and who != "self",
                            key + ":one-dec", mod.loc(fn),
                            f"a normal path of remove_from must decrement the "
                            f"matching notifier exactly once ({evs_l})")
-                was_one = ("T", "other._ref_count == 1") in facts
+                if len(decs) != 1:
+                    continue
+                was_one = ("T", f"{who}._ref_count == 1") in facts
                 removed = [e for e in evs_l if e.startswith("REMOVE")]
-                res.oblige((removed == ["REMOVE:other"]) == was_one
+                res.oblige((removed == [f"REMOVE:{who}"]) == was_one
                            and (not removed or evs_l.index(removed[0])
-                                < evs_l.index("DEC:other")),
+                                < evs_l.index(decs[0])),
                            key + ":detach-iff-last", mod.loc(fn),
                            f"the notifier must be detached exactly when its "
                            f"count is 1 before the decrement (path {evs_l}, "
@@ -811,7 +828,7 @@ def weak(ctx, res):
     ]
     for rel, qual in specs:
         mod = repo.module(rel)
-        fn = repo.func(rel, qual)
+        fn = repo.inlined(rel, qual)
 
         class F(FactFlow):
             def __init__(s, *a):
@@ -856,7 +873,7 @@ def weak(ctx, res):
     # legacy wrapper
     rel = "traits/trait_notifiers.py"
     mod = repo.module(rel)
-    fn = repo.func(rel, "TraitChangeNotifyWrapper.init")
+    fn = repo.inlined(rel, "TraitChangeNotifyWrapper.init")
     res.instance("TraitChangeNotifyWrapper.init", mod.loc(fn))
     # in the bound-method branch nothing derived from the method or its owner
     # is stored except weakref.ref(owner) and the method *name*
@@ -958,7 +975,7 @@ def identity(ctx, res):
             (OBS + "_observer_change_notifier.py", "ObserverChangeNotifier",
              {"handler", "target", "dispatcher", "graph", "observer_handler"})):
         mod = repo.module(rel)
-        fn = repo.func(rel, f"{cname}.equals")
+        fn = repo.inlined(rel, f"{cname}.equals")
         got = _self_fields(fn)
         res.instance(f"{cname}.equals", mod.loc(fn), fields=sorted(got))
         res.oblige(got == want, f"{cname}.equals", mod.loc(fn),
